@@ -570,6 +570,23 @@ def specMode (c : Cfg) : Mode :=
 def compIsPattern (cfg : Cfg) (cs : List PC) : Bool :=
   hasMeta (compPat cs) || (cfg.extglob && hasExtGroup (compPat cs))
 
+/-- Does the pattern ask for a leading dot explicitly?  A literal dot first; under extglob also a
+    leading pattern-list one of whose alternatives does (or, for `?(` and `*(`, what follows it). -/
+def leadDot (ext : Bool) : Nat → Str → Bool
+  | 0, _ => false
+  | fuel + 1, p =>
+    match p with
+    | [] => false
+    | c :: rest =>
+      if c = cDot then true
+      else if c = cBS then rest.head? == some cDot
+      else if ext && isExtOp c && rest.head? == some cLP then
+        match scanGroup false (rest.length + 1) 0 [] [] rest.tail with
+        | .ok (some (alts, rest')) =>
+          alts.any (leadDot ext fuel) || ((c == cQuest || c == cStar) && leadDot ext fuel rest')
+        | _ => false
+      else false
+
 /-- One component applied to one prefix.  `first`: nothing has been written yet. -/
 def specStep (root : Node) (cfg : Cfg) (pwd : Str) (first last : Bool) (cs : List PC) (pre : Str) : List Str :=
   let join := fun (n : Str) => if first then n else pre ++ cSlash :: n
@@ -579,7 +596,8 @@ def specStep (root : Node) (cfg : Cfg) (pwd : Str) (first last : Bool) (cs : Lis
     | .error _ => []
     | .ok ents =>
       -- a name that starts with a dot needs dotglob or a pattern that starts with a literal dot
-      let dotOk := fun (n : Str) => n.head? != some cDot || cfg.dotglob || (cs.head?.map (·.c)) == some cDot
+      let dotOk := fun (n : Str) => n.head? != some cDot || cfg.dotglob ||
+        leadDot cfg.extglob ((compPat cs).length + 1) (compPat cs)
       let names := (ents.map (·.1)).filter fun n => dotOk n && globMatch (specMode cfg) (compPat cs) n
       let outs := names.map join
       if last then outs else outs
